@@ -13,7 +13,10 @@ Definition zsort (l : list Z) : list Z := fold_right zinsert [] l.
 
 Definition code (o : qop) : Z := q_sfx o * 10 + q_ty o.
 
-Record wrcase := { w_max : nat; w_events : list event; w_queue : list Z; w_log : list (Z * list Z); w_panic : bool }.
+(* [w_discarded]: ids of the operations the handler reported expired in batches that were committed (anchored, or -
+   when every operation of the batch had expired, F16 - acknowledged without an anchor write), in that order *)
+Record wrcase := { w_max : nat; w_events : list event; w_queue : list Z; w_log : list (Z * list Z); w_discarded : list Z;
+                   w_panic : bool }.
 
 Fixpoint log_eqb (a : list anchored_batch) (b : list (Z * list Z)) : bool :=
   match a, b with
@@ -27,6 +30,7 @@ Definition is_idle (p : pc) : bool := match p with Idle => true | _ => false end
 Definition check_wrcase (c : wrcase) : bool :=
   let s := run (w_max c) (init []) (w_events c) in
   negb (w_panic c) && negb (stuck s) && is_idle (wpc s) &&
-  listZ_eqb (ids (queue s)) (w_queue c) && log_eqb (anchored s) (w_log c).
+  listZ_eqb (ids (queue s)) (w_queue c) && log_eqb (anchored s) (w_log c) &&
+  listZ_eqb (ids (discarded s)) (w_discarded c).
 
 Definition wr_mismatches (base : nat) (l : list wrcase) : list nat := mismatches_from check_wrcase base l.
